@@ -7,9 +7,10 @@
      st en  x.start / x.end as UTC microseconds (Python compares, subtracts, equates and hashes
           aware datetimes by exactly that number; naive datetimes are read as UTC);
      ost oen  utcoffset of x.start / x.end in microseconds (only .time() looks at it);
-     pl   an index naming the shape's payload (centroid + properties).  Distances between
-          payloads ([dist], the library delegates to haversine_distance_meters) and the payload of
-          a convolved ping ([merge]: mean centroid, merged properties) are Section variables.
+     pl   an index naming the shape's centroid.  Distances between centroids ([dist], the
+          library delegates to haversine_distance_meters) and the centroid of a convolved ping
+          ([merge]: mean of the group's centroids) are Section variables.  Properties are not in
+          the model (the harness checks the merged dict of a convolved ping directly).
    Not modelled: NaN distances/speeds (the np.isnan branch of filter_impossible_journeys),
    datetime overflow of max(end)+1s, slices with a step or a non-slice index. *)
 From Coq Require Import QArith.
